@@ -108,7 +108,8 @@ end frames
     plain effect of the event. -/
 theorem step_cases {cfg : Cfg} {st st' : State} {ev : Ev} (h : step cfg st ev = some st') :
     st.crashed = none ∧
-    (st' = { st with crashed := some "send on closed channel" } ∨ stepCore cfg st ev = some st') := by
+    ((st.sendClosed = true ∧ st' = { st with crashed := some "send on closed channel" }) ∨
+     stepCore cfg st ev = some st') := by
   unfold step at h
   split at h
   · simp at h
@@ -117,7 +118,9 @@ theorem step_cases {cfg : Cfg} {st st' : State} {ev : Ev} (h : step cfg st ev = 
     split at h
     · simp at h
     · split at h
-      · simp at h; exact .inl h.symm
+      · rename_i hs
+        simp at h hs
+        exact .inl ⟨hs.1, h.symm⟩
       · simp at h; subst h; exact .inr (by assumption)
 
 /-! ### induction over event sequences -/
@@ -262,7 +265,8 @@ def Out.isNote : Out → Bool
 theorem dispatch_cases (cfg : Cfg) (st : State) (m : RMsg) :
     (∃ o, o.isNote = true ∧ dispatch cfg st m = st.emit o) ∨
     (∃ g id, sigId m = some id ∧ st.awaiting id = some g ∧ dispatch cfg st m = { st with run := .signalling g m }) ∨
-    (∃ site, dispatch cfg st m = { st with crashed := some site }) ∨
+    (∃ site sub pub d a k, m = .event sub pub d a k ∧ eventPpt cfg.ppt cfg.deser d a k = .panic site ∧
+        dispatch cfg st m = { st with crashed := some site }) ∨
     (∃ sub pub d a k a' k', m = .event sub pub d a k ∧
         dispatch cfg st m = { st with run := .inEvent }.emit (.eventStart sub pub a' k')) ∨
     dispatch cfg st m = { st with run := .busy m }.emit (.toWorker m) ∨
@@ -283,7 +287,8 @@ theorem dispatch_cases (cfg : Cfg) (st : State) (m : RMsg) :
     · split
       · split
         · split
-          · exact .inr (.inr (.inl ⟨_, rfl⟩))
+          · rename_i hpp
+            exact .inr (.inr (.inl ⟨_, _, _, _, _, _, rfl, hpp, rfl⟩))
           · exact .inl ⟨_, rfl, rfl⟩
           · exact .inr (.inr (.inr (.inl ⟨_, _, _, _, _, _, _, rfl, rfl⟩)))
         · exact .inl ⟨_, rfl, rfl⟩
@@ -306,7 +311,7 @@ theorem runRecv_cases {cfg : Cfg} {st st' : State} (h : runRecv cfg st = some st
   · simp at h
 
 /-- `b` is `a` after the post-processing of an API call: the handler tables may have grown; a
-    PPT protocol violation sent ABORT and closed the send side. -/
+    PPT protocol violation sent ABORT and stopped receiving (before fix aee6f97: closed the send side). -/
 structure SameMod (a b : State) : Prop where
   now : b.now = a.now
   idgen : b.idgen = a.idgen
@@ -317,35 +322,81 @@ structure SameMod (a b : State) : Prop where
   arrived : b.arrived = a.arrived
   rclosed : b.rclosed = a.rclosed
   run : b.run = a.run
-  recvDone : b.recvDone = a.recvDone
+  recvDone : b.recvDone = a.recvDone ∨ b.recvDone = true
   done : b.done = a.done
   close : b.close = a.close
   crashed : b.crashed = a.crashed
-  out : (b.out = a.out ∧ b.sendClosed = a.sendClosed) ∨
-        (b.out = .send (.abort N.ErrProtocolViolation) :: a.out ∧ b.sendClosed = true)
+  sendClosed : b.sendClosed = a.sendClosed ∨ (b.sendClosed = true)
+  out : b.out = a.out ∨ b.out = .send (.abort N.ErrProtocolViolation) :: a.out
+
+theorem abortSession_sameMod (cfg : Cfg) (st : State) : SameMod st (abortSession cfg st) := by
+  unfold abortSession
+  split
+  · constructor <;> first | rfl | exact .inl rfl | exact .inr rfl
+  · split
+    · constructor <;> first | rfl | exact .inl rfl | exact .inr rfl
+    · constructor <;> first | rfl | exact .inl rfl | exact .inr rfl
+
+/-- Today's `abortSession` leaves the send side alone. -/
+theorem abortSession_sendClosed (cfg : Cfg) (st : State) (h : cfg.abortClosesSend = false) :
+    (abortSession cfg st).sendClosed = st.sendClosed := by
+  unfold abortSession
+  simp [h]
+  split <;> rfl
 
 theorem postProcess_ok {cfg : Cfg} {st st1 : State} {w : Waiter} {r r' : Ret}
     (h : postProcess cfg st w r = .ok (st1, r')) : SameMod st st1 := by
   unfold postProcess at h
   split at h
-  · simp at h; obtain ⟨h1, _⟩ := h; subst h1; constructor <;> first | rfl | exact .inl ⟨rfl, rfl⟩
-  · simp at h; obtain ⟨h1, _⟩ := h; subst h1; constructor <;> first | rfl | exact .inl ⟨rfl, rfl⟩
+  · simp at h; obtain ⟨h1, _⟩ := h; subst h1; constructor <;> first | rfl | exact .inl rfl
+  · simp at h; obtain ⟨h1, _⟩ := h; subst h1; constructor <;> first | rfl | exact .inl rfl
   · split at h
     · simp at h
-    · simp at h; obtain ⟨h1, _⟩ := h; subst h1; constructor <;> first | rfl | exact .inr ⟨rfl, rfl⟩
-    · simp at h; obtain ⟨h1, _⟩ := h; subst h1; constructor <;> first | rfl | exact .inl ⟨rfl, rfl⟩
-    · simp at h; obtain ⟨h1, _⟩ := h; subst h1; constructor <;> first | rfl | exact .inl ⟨rfl, rfl⟩
-  · simp at h; obtain ⟨h1, _⟩ := h; subst h1; constructor <;> first | rfl | exact .inl ⟨rfl, rfl⟩
+    · simp at h; obtain ⟨h1, _⟩ := h; subst h1; exact abortSession_sameMod cfg st
+    · simp at h; obtain ⟨h1, _⟩ := h; subst h1; constructor <;> first | rfl | exact .inl rfl
+    · simp at h; obtain ⟨h1, _⟩ := h; subst h1; constructor <;> first | rfl | exact .inl rfl
+  · simp at h; obtain ⟨h1, _⟩ := h; subst h1; constructor <;> first | rfl | exact .inl rfl
+
+/-- Post-processing leaves the send side alone (today's `abortSession`). -/
+theorem postProcess_sendClosed {cfg : Cfg} {st st1 : State} {w : Waiter} {r r' : Ret}
+    (hc : cfg.abortClosesSend = false) (h : postProcess cfg st w r = .ok (st1, r')) :
+    st1.sendClosed = st.sendClosed := by
+  unfold postProcess at h
+  split at h
+  · simp at h; obtain ⟨h1, _⟩ := h; subst h1; rfl
+  · simp at h; obtain ⟨h1, _⟩ := h; subst h1; rfl
+  · split at h
+    · simp at h
+    · simp at h; obtain ⟨h1, _⟩ := h; subst h1; exact abortSession_sendClosed cfg st hc
+    · simp at h; obtain ⟨h1, _⟩ := h; subst h1; rfl
+    · simp at h; obtain ⟨h1, _⟩ := h; subst h1; rfl
+  · simp at h; obtain ⟨h1, _⟩ := h; subst h1; rfl
+
+/-- Post-processing can only panic inside `prepareCallResultMessage`. -/
+theorem postProcess_panic {cfg : Cfg} {st : State} {w : Waiter} {r : Ret} {site : String}
+    (h : postProcess cfg st w r = .panic site) :
+    ∃ d a k, prepareCallResult cfg.ppt cfg.deser cfg.dealerPPT d a k = .panic site := by
+  unfold postProcess at h
+  split at h
+  · simp at h
+  · simp at h
+  · split at h
+    · rename_i hp; simp at h; subst h; exact ⟨_, _, _, hp⟩
+    · simp at h
+    · simp at h
+    · simp at h
+  · simp at h
 
 /-- The shapes `complete` can take. -/
 theorem complete_cases (cfg : Cfg) (st : State) (g : Nat) (r : Ret) :
-    (∃ site, complete cfg st g r = { st with crashed := some site }) ∨
+    (∃ site, postProcess cfg st (st.ws g) r = .panic site ∧ complete cfg st g r = { st with crashed := some site }) ∨
     (∃ st1 r', SameMod st st1 ∧ postProcess cfg st (st.ws g) r = .ok (st1, r') ∧
       complete cfg st g r = (st1.setW g { st.ws g with phase := .returned r' }).emit (.ret g r')) := by
   unfold complete
   simp only
   split
-  · exact .inl ⟨_, rfl⟩
+  · rename_i site heq
+    exact .inl ⟨site, heq, rfl⟩
   · rename_i st1 r' heq
     exact .inr ⟨st1, r', postProcess_ok heq, heq, rfl⟩
 
